@@ -5,10 +5,10 @@
 set -e
 P="$1"; PID="$2"; TIER="${3:-quick}"
 D=$(mktemp -d /tmp/mut.XXXXXX)
-trap 'rm -rf "$D"' EXIT
+trap 'rm -rf "$D" "$E"' EXIT
 cp -r /repo/. "$D/"
 rm -rf "$D/.git"
 P=$(readlink -f "$P"); (cd "$D" && patch -p1 -s < "$P")
 export GOFLAGS=-mod=mod GOPROXY=off GOSUMDB=off GOTOOLCHAIN=local
 if (cd "$D" && go test -vet=off -count=1 ./... >/dev/null 2>&1); then echo "baseline tests: pass"; else echo "baseline tests: FAIL (mutant not admissible)"; fi
-SIGNAL_REPO="$D" /verif/bin/check "$PID" "$TIER" | cut -c1-300 | grep -v "^  harness" | head -${MUT_LINES:-8}
+E=$(mktemp -d /tmp/mutev.XXXXXX); VERIF_EVIDENCE_DIR="$E" SIGNAL_REPO="$D" /verif/bin/check "$PID" "$TIER" | cut -c1-300 | grep -v "^  harness" | head -${MUT_LINES:-8}
